@@ -515,23 +515,48 @@ def run_plan(pid, tier, seed, extra_cov=None, t0=None):
 
 
 def validate_freelist(pairs, tag):
+    """FreeListTrace over the (a, b) snapshot pairs.  Records are judged independently of each other, so identical
+    pairs are validated once and the distinct ones are dealt out (most expensive first) to several TLC processes."""
     import re
     tdir = os.path.join(C.OUT, "traces")
     os.makedirs(tdir, exist_ok=True)
-    tp = os.path.join(tdir, "freelist_%s.ndjson" % tag)
-    with open(tp, "w") as f:
-        for p in pairs:
-            f.write(json.dumps(dict(file=p["file"], a=dict(bump=p["a"]["bump"], live=p["a"]["live"], flp=p["a"]["flp"]),
-                                    b=dict(bump=p["b"]["bump"], live=p["b"]["live"], flp=p["b"]["flp"]))) + "\n")
+    distinct = {}            # canonical JSON -> indices into pairs
+    for i, p in enumerate(pairs):
+        line = json.dumps(dict(file=p["file"], a=dict(bump=p["a"]["bump"], live=p["a"]["live"], flp=p["a"]["flp"]),
+                               b=dict(bump=p["b"]["bump"], live=p["b"]["live"], flp=p["b"]["flp"])), sort_keys=True)
+        distinct.setdefault(line, []).append(i)
+    lines = sorted(distinct, key=len, reverse=True)
+    nproc = max(1, min(12, C.workers() - 2, (len(lines) + 199) // 200))
+    chunks = [lines[k::nproc] for k in range(nproc)]
     cfg = os.path.join(C.OUT, "FreeListTrace_%s.cfg" % tag)
     C.write_cfg(cfg, "TSpec", dict(M=1022, MaxPage=100000000, MaxAlloc=0, MaxFreed=0, MaxSyncs=0, Drop=set(), AllSubsets=False, MaxWaste=160),
                 postcondition="Finished")
-    rc, out = C.run_tlc("FreeListTrace.tla", cfg, tag="freelisttrace" + tag, nworkers=1, timeout=3600, heap="8g", env_extra={"TRACE": tp},
-                        java_opts="-Xss1g -Dtlc2.tool.queue.IStateQueue=StateDeque")
-    if '"TRACE-COMPLETE"' not in out:
-        raise C.ToolError("FreeListTrace did not complete:\n" + out[-2000:])
-    os.remove(tp)
-    return [int(m.group(1)) - 1 for m in re.finditer(r'<<"BAD-RECORD", (\d+)>>', out)]
+    C.log("[freelist] %d snapshot pairs, %d distinct, %d TLC processes" % (len(pairs), len(lines), nproc))
+    results = [None] * nproc
+
+    def one(k):
+        tp = os.path.join(tdir, "freelist_%s_%d.ndjson" % (tag, k))
+        with open(tp, "w") as f:
+            for line in chunks[k]:
+                f.write(line + "\n")
+        results[k] = C.run_tlc("FreeListTrace.tla", cfg, tag="freelisttrace%s-%d" % (tag, k), nworkers=1, timeout=5400, heap="3g",
+                               env_extra={"TRACE": tp}, java_opts="-Xss1g -Dtlc2.tool.queue.IStateQueue=StateDeque")
+        os.remove(tp)
+
+    import threading
+    ths = [threading.Thread(target=one, args=(k,)) for k in range(nproc)]
+    for t in ths:
+        t.start()
+    for t in ths:
+        t.join()
+    bad = []
+    for k in range(nproc):
+        rc, out = results[k]
+        if '"TRACE-COMPLETE"' not in out:
+            raise C.ToolError("FreeListTrace did not complete (part %d of %d):\n%s" % (k, nproc, out[-2000:]))
+        for m in re.finditer(r'<<"BAD-RECORD", (\d+)>>', out):
+            bad.extend(distinct[chunks[k][int(m.group(1)) - 1]])
+    return sorted(bad)
 
 
 def validate_alloc(pairs, tag):
